@@ -429,12 +429,12 @@ int32_t checkSupportedVersions(ssl_t *ssl)
     {
         /* Forbid TLS 1.3 if the client did not provide any TLS 1.3
            ciphersuites. */
-        forbiddenVer[i++] = TLS_1_3_DRAFT_22_VER;
-        forbiddenVer[i++] = TLS_1_3_DRAFT_23_VER;
-        forbiddenVer[i++] = TLS_1_3_DRAFT_24_VER;
-        forbiddenVer[i++] = TLS_1_3_DRAFT_26_VER;
-        forbiddenVer[i++] = TLS_1_3_DRAFT_28_VER;
-        forbiddenVer[i++] = TLS_1_3_VER;
+        forbiddenVer[i++] = v_tls_1_3_draft_22;
+        forbiddenVer[i++] = v_tls_1_3_draft_23;
+        forbiddenVer[i++] = v_tls_1_3_draft_24;
+        forbiddenVer[i++] = v_tls_1_3_draft_26;
+        forbiddenVer[i++] = v_tls_1_3_draft_28;
+        forbiddenVer[i++] = v_tls_1_3;
         forbiddenVerLen = i;
     }
     else
@@ -451,11 +451,11 @@ int32_t checkSupportedVersions(ssl_t *ssl)
 # ifndef USE_TLS_1_3_DRAFT_SPEC
         /* Don't negotiate a TLS 1.3 draft version unless enabled
            from compile-time config. */
-        forbiddenVer[i++] = TLS_1_3_DRAFT_22_VER;
-        forbiddenVer[i++] = TLS_1_3_DRAFT_23_VER;
-        forbiddenVer[i++] = TLS_1_3_DRAFT_24_VER;
-        forbiddenVer[i++] = TLS_1_3_DRAFT_26_VER;
-        forbiddenVer[i++] = TLS_1_3_DRAFT_28_VER;
+        forbiddenVer[i++] = v_tls_1_3_draft_22;
+        forbiddenVer[i++] = v_tls_1_3_draft_23;
+        forbiddenVer[i++] = v_tls_1_3_draft_24;
+        forbiddenVer[i++] = v_tls_1_3_draft_26;
+        forbiddenVer[i++] = v_tls_1_3_draft_28;
         forbiddenVerLen = i;
 # endif
     }
